@@ -90,6 +90,7 @@ Definition run_matches (e : env) (s : inst) : bool :=
 
 (* ---- one observed history *)
 Record ostep := {
+  s_restart : bool;           (* the controller was restarted before this reconciliation: new Instance, same directories *)
   s_ops : list op;            (* calls made on Config() before the update *)
   s_faults : list fpoint;     (* faults armed during the update *)
   s_qfail : N;                (* queue mode: failing reloads before the queue's reload succeeds *)
@@ -118,7 +119,8 @@ Fixpoint replay (chk_run : bool) (e : env) (s : inst) (l : list ostep) : bool :=
   match l with
   | [] => true
   | st :: l' =>
-    let '(s1, err) := update_f e (s_faults st) (sync e (no_pending s) (s_ops st)) in
+    let s0 := if s_restart st then restart s else s in
+    let '(s1, err) := update_f e (s_faults st) (sync e (no_pending s0) (s_ops st)) in
     let asked := i_pending s1 in
     let s2 := queue_reloads (s_qfail st) s1 in
     sobs_eqb (observe e s2 err asked (chk_run && run_matches e s2)) (s_obs st) && replay chk_run e s2 l'
@@ -132,7 +134,8 @@ Fixpoint model_trace (e : env) (s : inst) (l : list ostep) : list sobs :=
   match l with
   | [] => []
   | st :: l' =>
-    let '(s1, err) := update_f e (s_faults st) (sync e (no_pending s) (s_ops st)) in
+    let s0 := if s_restart st then restart s else s in
+    let '(s1, err) := update_f e (s_faults st) (sync e (no_pending s0) (s_ops st)) in
     let s2 := queue_reloads (s_qfail st) s1 in
     observe e s2 err (i_pending s1) (run_matches e s2) :: model_trace e s2 l'
   end.
